@@ -20,7 +20,7 @@ func init() {
 			"(chain-lowering) every chain stage advances preNodeKeys on success and END is wired from every last stage before hasEnd is set; " +
 			"(termination-handoff) a started node execution is always handed back to the run loop, also when it panics; (copy-partition) the copies of a node output handed to branch conditions are disjoint from those delivered to successors (linear-form match of the index expressions, no solver); " +
 			"(merge-pure) fan-in merge never writes into its operands (a node's output map is shared by all its successors).",
-		decided:    []string{"step-bound", "clear-on-read", "end-short-circuit", "one-task-per-key", "chain-lowering", "termination-handoff", "copy-partition", "merge-pure"},
+		decided:    []string{"step-bound", "clear-on-read", "end-short-circuit", "one-task-per-key", "chain-lowering", "termination-handoff", "copy-partition", "merge-pure", "fan-in-terminates", "successors-not-mutated"},
 		notDecided: []string{"that each node's input is the merge of exactly the values sent in the previous step (value-level)", "branch routing results", "equivalence of a nested graph with the same graph compiled alone"},
 		run:        runC01,
 	})
